@@ -359,7 +359,10 @@ impl<'a> StatementEvaluator<'a> {
         if let Some(Token::NumericLiteral(_)) = self.program().peek_next_token() {
             self.evaluate_goto_statement()
         } else {
-            self.evaluate_statement()
+            self.program().enter_nested()?;
+            let result = self.evaluate_statement();
+            self.program().leave_nested();
+            result
         }
     }
 }
